@@ -400,6 +400,54 @@ int main(void) {
                 hc[0], hc[1], hc[2], hc[3], hs, hz[0], hz[1], hz[2], hz[3]);
             free(buf);
             free(p);
+        } else if (!strcmp(t[0], "hl2s") && n == 3) {
+            /* the key as a sub-view of a larger buffer: the bytes FOLLOWING the key vary (given bytes, 0x00, 0xFF, 0x0F,
+             * 0xF0 fills), at every alignment mod 4.  hashlittle2's 32-bit path loads whole words in its tail and masks
+             * the bytes behind the key off: equal keys must hash equally regardless of their surroundings. */
+            size_t len, alen;
+            uint8_t *p = hc_hex_decode(t[1], &len);
+            uint8_t *af = hc_hex_decode(t[2], &alen);
+            uint8_t *buf = malloc(len + alen + 24);
+            HC_CHECK(buf && ((uintptr_t)buf & 3) == 0);
+            static const uint8_t fills[4] = {0x00, 0xFF, 0x0F, 0xF0};
+            uint64_t hg[4], hzg[4];
+            bool same = true;
+            for (int off = 0; off < 4; ++off) {
+                for (int v = 0; v < 5; ++v) {
+                    memset(buf, v ? fills[v - 1] : 0xA5, len + alen + 24);
+                    memcpy(buf + off, p, len);
+                    if (v == 0) {
+                        memcpy(buf + off + len, af, alen);
+                    }
+                    struct aws_byte_cursor c = {.len = len, .ptr = buf + off};
+                    uint64_t h = aws_hash_byte_cursor_ptr(&c);
+                    if (v == 0) {
+                        hg[off] = h;
+                    }
+                    same = same && h == hg[0];
+                    /* C string: the terminating NUL, then the varying bytes */
+                    if (memchr(p, 0, len) == NULL) {
+                        buf[off + len] = 0;
+                        if (v == 0 && alen > 0) {
+                            memcpy(buf + off + len + 1, af, alen);
+                        }
+                        uint64_t hz = aws_hash_c_string((const char *)(buf + off));
+                        if (v == 0) {
+                            hzg[off] = hz;
+                        }
+                        same = same && hz == hg[0];
+                    } else if (v == 0) {
+                        hzg[off] = 0;
+                    }
+                }
+            }
+            printf("P hl2s consistent=%d\n", (int)same);
+            printf(
+                "W hl2s cur=%016" PRIx64 ",%016" PRIx64 ",%016" PRIx64 ",%016" PRIx64 "\n", hg[0], hg[1], hg[2], hg[3]);
+            (void)hzg;
+            free(buf);
+            free(p);
+            free(af);
         } else if (!strcmp(t[0], "hptr") && n == 2) {
             printf("W hptr %016" PRIx64 "\n", aws_hash_ptr((const void *)(uintptr_t)strtoull(t[1], NULL, 16)));
         } else if (!strcmp(t[0], "hcomb") && n == 3) {
